@@ -21,6 +21,10 @@ example : ODST_RETURN = "(ip, port)" := by decide
 example : ODST_ERRNO_TEST = "e.args[0] == errno.ENOPROTOOPT" := by decide
 
 -- tproxy / ipfw recv_udp
+-- the control buffer must hold the cmsg header + 24 bytes of sockaddr_in6 (family, port,
+-- flowinfo, address): `C05_cmsg_v6` needs data[0:24] (its `scope` may be cut off, even empty)
+example : TPROXY_RECVMSG_ARGS = ["4096", "socket.CMSG_SPACE(24)"] := by decide
+example : IPFW_RECVMSG_ARGS = ["4096", "socket.CMSG_SPACE(4)"] := by decide
 example : TPROXY_CMSG_FMTS = ["=HH", "=HH"] := by decide
 example : TPROXY_CMSG_HDR_SLICES = ["cmsg_data[0:4]", "cmsg_data[0:4]"] := by decide
 example : TPROXY_PORT_CONV = ["socket.htons(port)", "socket.htons(port)"] := by decide
